@@ -337,7 +337,8 @@ package compiler
 //@ assume-contract (*Visitor).VisitSchemas
 //@   requires visitor != nil
 //@   keeps compiler.
-//@   ensures  same: result.1 == nil ==> len(result.0) == len(schemas)
+//@   ensures  same: result.1 == nil ==> result.0 == schemas
+//@   ensures  wf: result.1 == nil ==> (forall s: int :: 0 <= s && s < len(result.0) ==> result.0[s] != nil && wf(result.0[s].Objects))
 //@   ensures  distinct: result.1 == nil ==> (forall a, b: int :: 0 <= a && a < b && b < len(result.0) ==> result.0[a] != result.0[b])
 //@   ensures  carried: result.1 == nil ==> (forall s: int :: 0 <= s && s < len(schemas) ==> result.0[s] != nil && result.0[s].Package == old(schemas[s].Package) && result.0[s].EntryPoint == old(schemas[s].EntryPoint) && result.0[s].Metadata == old(schemas[s].Metadata))
 //
